@@ -911,10 +911,13 @@ class Oracle:
             r = P.run(solver, n, seed, args={"g": g1})
         except AttributeError as e:
             if spec["kind"] in ("sse", "sme") and "'system'" in str(e):
-                # StochasticSolver.run(args=...) cannot be used at all: SIntegrator has
-                # no `system` for Integrator.arguments (not a C13 matter: it fails
-                # for every seed and history); recorded, see report
-                self.dist["sde-run-args-raises"] = self.dist.get("sde-run-args-raises", 0) + 1
+                # fixed in /repo 9963528 (SIntegrator.arguments); reported if it returns
+                self.ctx.violation(
+                    "sode.SIntegrator.arguments", "sde-run-args-raises",
+                    "StochasticSolver.run(..., args=...) raises AttributeError: the stochastic "
+                    "integrator has no `system` for Integrator.arguments",
+                    {"spec": P.spec, "variant": "args-changed-in-run", "error": repr(e)[:300],
+                     "g_construction": g0, "g_run": g1})
                 return
             raise
         self.compare(P1, r, "args-changed-in-run", ids, extra)
@@ -963,7 +966,8 @@ class Oracle:
         if kind in ("mc", "nm") and "atol" in opts and not self.matches(P3, r) \
                 and self.matches(P, r):
             # the run is exactly what the OLD option value gives: the new value
-            # never reached the ODE integrator wrapped by MCIntegrator
+            # never reached the ODE integrator wrapped by MCIntegrator (fixed in /repo
+            # bdf00f0; inert unless exactly that behaviour returns)
             self.nruns += 1
             self.ctx.violation(
                 "mcsolve.MCIntegrator.options", "ode-option-set-after-construction-ignored",
